@@ -5867,7 +5867,10 @@ class CodegenCtx:
             for subaction in action.replacement_actions():
                 result += self._generate_action_implementation(subaction, is_start=is_start, is_end=is_end, transition=transition)
             result.add(f"state->state = {self.dfa.states.index(action.refers_to.end_state)};")
-            if transition is not None:
+            if transition is not None and is_end and not transition.is_fallthrough and action.refers_to.end_state in self.dfa.accepting_states:
+                # end-of-input has been consumed and the break leaves the loop at the end of the program
+                result.add(f"return {self.program_name.upper()}_DONE;")
+            elif transition is not None:
                 result.add(f"goto {self._transition_skip_action_label(transition)};")
             else:
                 result.add(f"return {self.program_name.upper()}_OK;")
